@@ -40,7 +40,7 @@ Proof.
 Qed.
 
 Lemma act_resp_text c x :
-  act native_call (mk_action (PTuple [PVar "code"; PVar "text"]) (ACall "rfc3501::resp_text#1" [AVar "code"; AVar "text"])) (VTuple [c; x])
+  act native_call (mk_action (PTuple [PVar "p0"; PVar "p1"]) (ACall "rfc3501::resp_text#1" [AVar "p0"; AVar "p1"])) (VTuple [c; x])
   = resp_text_action c x.
 Proof. reflexivity. Qed.
 
@@ -58,7 +58,7 @@ Proof.
       end
     with
     | ROk r v u =>
-        match act native_call (mk_action (PTuple [PVar "code"; PVar "text"]) (ACall "rfc3501::resp_text#1" [AVar "code"; AVar "text"])) v with
+        match act native_call (mk_action (PTuple [PVar "p0"; PVar "p1"]) (ACall "rfc3501::resp_text#1" [AVar "p0"; AVar "p1"])) v with
         | AVal v' => ROk r v' u
         | AErr => RErr
         | APanic => RPanic
